@@ -167,6 +167,12 @@ class C10:
     def close(self):
         self.impl.close()
         self.model.close()
+        # an impl driver that was killed or aborted (allocation refused) cannot remove its scratch directory itself
+        rd = os.path.join(CACHE, "run")
+        for d in (os.listdir(rd) if os.path.isdir(rd) else []):
+            m = re.match(r"rdb-(\d+)$", d)
+            if m and not os.path.exists("/proc/" + m.group(1)):
+                shutil.rmtree(os.path.join(rd, d), ignore_errors=True)
         if self.srv is not None:
             self.srv.stop()
 
@@ -703,7 +709,12 @@ def main(tier, seed):
     rep.extra["source_facts"] = facts
     ok, log, errs = proof_phase(rep, families=[FAMILY])
     build_harness("rdb")
-    build_server()
+    if os.environ.get("VERIF_SERVER_BIN"):
+        pass          # sanity test against a separately built server: never build into the shared cache from another source tree
+    elif os.path.realpath(REPO) != "/repo":
+        raise InternalError("FERROUS_REPO is overridden: set VERIF_SERVER_BIN to a server built elsewhere (the shared cache is for /repo only)")
+    else:
+        build_server()
     c = C10(rep, facts)
     try:
         c.run(seed, tier)
@@ -746,7 +757,8 @@ def replay(path):
     rep = Report("C10", "quick", obj.get("seed", 1))
     facts = source_facts()
     build_harness("rdb")
-    build_server()
+    if not os.environ.get("VERIF_SERVER_BIN") and os.path.realpath(REPO) == "/repo":
+        build_server()
     build_driver(FAMILY)
     c = C10(rep, facts)
     try:
